@@ -9,8 +9,17 @@ from ..common import Scratch, Timer, tier, seed, use_repo, vlog
 from ..report import Report
 
 
+def aux(o):
+    """the rest of an object's observable state: names, and the ancilla bookkeeping of a QCircuitEnhanced"""
+    d = [[str(k), int(v)] for k, v in o.qubit_map.items()]
+    for f in ("ancilla_lst", "free_ancilla_lst", "marked_ancillas"):
+        if hasattr(o, f):
+            d.append([f, sorted(int(x) for x in getattr(o, f))])
+    return json.dumps(d)
+
+
 def snap(objs, ids):
-    return [{"nq": int(o.num_qubits), "gates": ser.ser_gates(o.gates, ids)} for o in objs]
+    return [{"nq": int(o.num_qubits), "gates": ser.ser_gates(o.gates, ids), "aux": aux(o)} for o in objs]
 
 
 def replay(hist):
@@ -44,6 +53,14 @@ def replay(hist):
                 if not hasattr(objs[op["a"]], "remove_identities"):
                     break  # not applicable to a plain QCircuit: the history ends here
                 objs[op["a"]].remove_identities()
+            elif k in ("anc", "uncompute"):
+                o = objs[op["a"]]
+                if not hasattr(o, "add_ancilla"):
+                    break  # not applicable to a plain QCircuit: the history ends here
+                if k == "anc":
+                    o.mark_ancilla(o.add_ancilla(is_free=False))
+                else:
+                    o.uncompute()
             elif k == "qft_iqft":
                 objs[op["a"]].qft(list(op["qubits"]))
                 objs[op["a"]].iqft(list(op["qubits"]))
